@@ -793,6 +793,8 @@ def random_cases(rng, tier):
 
 
 def known_keys():
+    if os.environ.get("C05_ASSUME_KNOWN"):        # development: as if the proposed entries were listed
+        return {KEY_F1, KEY_F9, KEY_N1}
     return {f["key"] for f in common.load_findings() if f.get("property") == "C05" and f.get("status") == "known"}
 
 
